@@ -838,7 +838,11 @@ Inductive fop :=
 | FInsert (ks : list nat) (b : option nat) (dst : path) (how : ins)
     (* the held nodes ks THEMSELVES (no copies) are given to node(b,dst): append_child(loop=) / [i] = / [a:b:st] = [...] *)
 | FAddMeas (b : option nat) (p : path) (ms : list mw)
-| FFlatten (b : option nat) (p : path) (depth : Z).
+| FFlatten (b : option nat) (p : path) (depth : Z)
+(* round 6 (seed C09-10's class): w = Loop(children=[held ks], repetition_count=r), wrapped `depth` times (the outermost
+   wrapper carries r, the inner ones count 1); w is then given to node(b,dst) like FInsert and the user keeps holding w.
+   One step: between the construction (which takes the children over) and the assignment the program is not a tree. *)
+| FWrapInsert (ks : list nat) (depth : nat) (r : rdef) (b : option nat) (dst : path) (how : ins).
 
 Definition base_of (fs : fstate) (b : option nat) : option id :=
   match b with None => Some (st_root (f_main fs)) | Some j => nth_error (f_held fs) j end.
@@ -853,6 +857,15 @@ Definition frun_at (fs : fstate) (b : option nat) (p : path) (k : id -> M unit) 
   | None => (fs, BadPath)
   | Some m => let '(s', out) := run_at (mkState (st_heap s) m (st_vctr s)) p k in
               (mkF (mkState (st_heap s') (st_root s) (st_vctr s')) (f_held fs), out)
+  end.
+
+Fixpoint wrap_n (depth : nat) (r : rdef) (cs : list id) : M id :=
+  match depth with
+  | O => new_loop None cs r None None
+  | S d => match d with
+           | O => new_loop None cs r None None
+           | S _ => w <- new_loop None cs (RInt 1) None None ;; wrap_n d r [w]
+           end
   end.
 
 Definition fstep (fs : fstate) (o : fop) : fstate * outcome :=
@@ -895,6 +908,22 @@ Definition fstep (fs : fstate) (o : fop) : fstate * outcome :=
             | ISlice a b' st, _ => loop_setitem_slice x a b' st vals
             | _, [] => ret tt
             end)
+      end
+  | FWrapInsert ks depth r b dst how =>
+      let s := f_main fs in
+      match held_ids (f_held fs) ks with
+      | None => (fs, BadPath)
+      | Some vals =>
+          match wrap_n depth r vals (st_heap s) with
+          | (h1, R w) =>
+              frun_at (mkF (mkState h1 (st_root s) (st_vctr s)) (f_held fs ++ [w])) b dst (fun x =>
+                match how with
+                | IAppend => append_child x w
+                | IInt i => loop_setitem_int x i w
+                | ISlice a b' st => loop_setitem_slice x a b' st [w]
+                end)
+          | (h1, E e) => (mkF (mkState h1 (st_root s) (st_vctr s)) (f_held fs), Raised e)
+          end
       end
   | FAddMeas b p ms => frun_at fs b p (fun x => add_measurements x ms)
   | FFlatten b p depth => frun_at fs b p (fun x => flatten_and_balance (st_vctr (f_main fs)) depth x)
